@@ -55,7 +55,7 @@ type c18Params struct {
 	Handled int    `json:"handled,omitempty"` // run: 0 no, 1 a handled exception earlier in main, 2 right before the fault
 	Site    int    `json:"site,omitempty"`    // run: 0 mixed call-site forms, k>0 every call site of form k-1
 	NoTrail bool   `json:"no_trailing_eol,omitempty"`
-	Other   int    `json:"other_handlers,omitempty"` // run: 1 = every method on the way (and the main program) has a 拦截 block for ANOTHER exception class; 2 = an imported module 影 exports methods named like the program's own; 3 = right before the fault statement and before every call on the chain a call that has RETURNED, of a method of module 齐 whose last statement sits on the very line number of the statement that follows; 4 = the same, the one before the fault returning through an exception handled in the callee (module 齐拦)
+	Other   int    `json:"other_handlers,omitempty"` // run: 1 = every method on the way (and the main program) has a 拦截 block for ANOTHER exception class; 2 = an imported module 影 exports methods named like the program's own; 3 = right before the fault statement and before every call on the chain a call that has RETURNED, of a method of module 齐 whose last statement sits on the very line number of the statement that follows; 4 = the same, the one before the fault returning through an exception handled in the callee (module 齐拦); 5 = the outermost call is the constructor of a type of the program's own whose name an imported module 影 exports too
 	Rune    int    `json:"rune,omitempty"`           // wid: the character in front of the offending one
 }
 
@@ -436,7 +436,7 @@ func (b *c18Builder) fault(f *c18File, ind int) {
 		}
 		return f.add(ind, text)
 	}
-	if p.Mode == "run" && p.Other >= 3 {
+	if p.Mode == "run" && (p.Other == 3 || p.Other == 4) {
 		b.alignCall(f, ind, p.Other == 4)
 	}
 	switch {
@@ -747,11 +747,17 @@ func c18Build(p c18Params) (pr c18Prog) {
 		}
 		pr.Shadow = strings.Join(sh, "\n") + "\n"
 	}
+	if p.Other == 5 {
+		// the outermost call is the CONSTRUCTOR of a type of the program's own, and the imported
+		// module 影 (imported first) exports a type of the same name with a constructor of its own
+		main.add(0, "导入《影》")
+		pr.Shadow = "注：“影模块\n两行注释”\n定义甲型：\n    其Q = 2\n\n如何新建甲型？\n    令影子 = 1\n    令影丑 = 2\n    其Q = 3\n\n如何影法？\n    输出 -5\n"
+	}
 	if pr.HasExt {
 		main.add(0, "导入《外》")
 	}
 	var alignBefore func(f *c18File, ind int)
-	if p.Other >= 3 {
+	if p.Other == 3 || p.Other == 4 {
 		b.extFile = ext
 		for k, f := range []*c18File{main, ext} {
 			if f == main || pr.HasExt {
@@ -791,7 +797,14 @@ func c18Build(p c18Params) (pr c18Prog) {
 	}
 	for l := 1; l <= D; l++ {
 		f := fileOf(l)
-		f.add(0, "如何"+c18Names[l]+"？")
+		if p.Other == 5 && l == 1 {
+			f.add(0, "定义甲型：")
+			f.add(1, "其P = 1")
+			f.add(0, "")
+			f.add(0, "如何新建甲型？")
+		} else {
+			f.add(0, "如何"+c18Names[l]+"？")
+		}
 		if l < D {
 			f.add(1, fmt.Sprintf("令子 = %d", l))
 			callLine[l], callText[l] = c18CallSite(f, 1, c18Names[l+1], c18SiteForm(p, l), alignBefore)
@@ -813,7 +826,11 @@ func c18Build(p c18Params) (pr c18Prog) {
 	if D == 0 {
 		b.body(main, 0)
 	} else {
-		callLine[0], callText[0] = c18CallSite(main, 0, c18Names[1], c18SiteForm(p, 0), alignBefore)
+		outer := c18Names[1]
+		if p.Other == 5 {
+			outer = "新建甲型"
+		}
+		callLine[0], callText[0] = c18CallSite(main, 0, outer, c18SiteForm(p, 0), alignBefore)
 		main.add(0, "（显示：“终”）")
 		if p.Other == 1 {
 			main.add(0, "拦截缺货：")
@@ -834,7 +851,7 @@ func c18Build(p c18Params) (pr c18Prog) {
 	if pr.HasExt {
 		pr.Ext = c18Join(ext, p, !(p.NoTrail && faultFile == ext))
 	}
-	if p.Other >= 3 {
+	if p.Other == 3 || p.Other == 4 {
 		pr.Extra = b.alignedModules(c18EOLs[p.EOL])
 	}
 	return
@@ -1309,6 +1326,11 @@ func c18Enumerate(tier string, visit func(p c18Params)) {
 										// an imported module exports methods named like the program's own methods
 										if h == 0 {
 											visit(c18Params{Mode: "run", Kind: kind, Tmpl: ti, Slot: si, EOL: eol, Depth: x.d, Mod: x.m, Other: 2})
+											// ... and exports a TYPE named like the program's own type, whose constructor
+											// is the outermost call (only where level 1 lives in the main file)
+											if x.m == 0 || (x.m == 1 && x.d >= 2) || (x.m == 2 && x.d >= 3) {
+												visit(c18Params{Mode: "run", Kind: kind, Tmpl: ti, Slot: si, EOL: eol, Depth: x.d, Mod: x.m, Other: 5})
+											}
 										}
 									}
 									// calls that have returned and whose last statement sat on the line number of the
